@@ -7,6 +7,20 @@ import (
 	"time"
 )
 
+// CodeFrames: substrings that identify stack frames of the code under test.
+// The kqueue harness, whose copy of the backend lives in its own package,
+// replaces them.
+var CodeFrames = []string{"fsnotify."}
+
+func inCode(stack string) bool {
+	for _, f := range CodeFrames {
+		if strings.Contains(stack, f) {
+			return true
+		}
+	}
+	return false
+}
+
 var goHeader = regexp.MustCompile(`^goroutine (\d+) \[([^\],]+)`)
 
 // GoroutineState returns id, state and stack of the first goroutine whose
@@ -58,7 +72,7 @@ func blockingState(s string) bool {
 // (the goroutine finished, is running, or is merely slow).
 func BlockedProof(marker string) string {
 	id1, st1, stack1 := GoroutineState(marker)
-	if id1 == "" || !blockingState(st1) || !strings.Contains(stack1, "fsnotify.") {
+	if id1 == "" || !blockingState(st1) || !inCode(stack1) {
 		return ""
 	}
 	if anyFsnotifyRunnable() {
